@@ -694,6 +694,12 @@ def run_inner(ctx):
     ctx.add_samples([[c[0], go_desc(c[1], c[2])[:120], res[i][3][:80]] for i, c in list(enumerate(cases))[::max(1, len(cases) // 5)]])
 
     for f in oracles:
+        if not f[2].isdigit():
+            # oracle-only cases built inside the harness (placeholder pickler: an object memoized twice)
+            ctx.violation("implementation violates C07 oracle %s on %s: %s" % (f[1], f[2], f[3] if len(f) > 3 else ""),
+                          {"oracle": f[1], "case": f[2], "detail": f[3:],
+                           "how": "verifPlaceholderCases in harness/overlay/pickle/zz_verif_c07_test.go"})
+            continue
         i = int(f[2])
         ctx.violation("implementation violates C07 oracle %s on %s" % (f[1], go_desc(cases[i][1], cases[i][2])[:200]),
                       {"oracle": f[1], "class": cases[i][0], "description": go_desc(cases[i][1], cases[i][2])[:100000],
